@@ -194,54 +194,52 @@ Definition g_no_stale_capture (l : list stm) : bool := decl_guard_gen true l 0 [
 Definition g_no_stale_capture_before_fix (l : list stm) : bool := decl_guard_gen false l 0 [] (dup_table l) [].
 
 (* ---- cleanup_model: the inlining loop -------------------------------------------------------------
-   for s in statements: if Assignment and s.expression.is_symbol():
+   for s in statements: if Assignment and s.expression.is_symbol()
+                           and s.symbol not in model.dependent_variables:          (since commit b7852b9)
                             current[s.symbol] = s.expression.subs(current)        (since commit 185d1d3)
                         else: newstats.append(s.subs(current))                                      *)
-Definition alias_of (st : stm) : option (id * id) :=
-  match st with SAssign s (Sym y) => Some (s, y) | _ => None end.
+(* [dvs] = the dependent variables of the model *)
+Definition alias_of (dvs : list id) (st : stm) : option (id * id) :=
+  match st with SAssign s (Sym y) => if memp s dvs then None else Some (s, y) | _ => None end.
 
-Fixpoint inline_walk (l : list stm) (cur : list (id * expr)) : list stm :=
+Fixpoint inline_walk (dvs : list id) (l : list stm) (cur : list (id * expr)) : list stm :=
   match l with
   | [] => []
   | st :: tl =>
-      match alias_of st with
-      | Some (s, y) => inline_walk tl (aset s (subs_map cur (Sym y)) cur)
-      | None => subs_stm cur st :: inline_walk tl cur
+      match alias_of dvs st with
+      | Some (s, y) => inline_walk dvs tl (aset s (subs_map cur (Sym y)) cur)
+      | None => subs_stm cur st :: inline_walk dvs tl cur
       end
   end.
-Definition inline (l : list stm) : list stm := inline_walk l [].
+Definition inline (dvs : list id) (l : list stm) : list stm := inline_walk dvs l [].
 
-Fixpoint inline_final (l : list stm) (cur : list (id * expr)) : list (id * expr) :=
+Fixpoint inline_final (dvs : list id) (l : list stm) (cur : list (id * expr)) : list (id * expr) :=
   match l with
   | [] => cur
   | st :: tl =>
-      match alias_of st with
-      | Some (s, y) => inline_final tl (aset s (subs_map cur (Sym y)) cur)
-      | None => inline_final tl cur
+      match alias_of dvs st with
+      | Some (s, y) => inline_final dvs tl (aset s (subs_map cur (Sym y)) cur)
+      | None => inline_final dvs tl cur
       end
   end.
 (* the aliases that disappear from the program *)
-Definition inlined (l : list stm) : list id := akeys (inline_final l []).
+Definition inlined (dvs : list id) (l : list stm) : list id := akeys (inline_final dvs l []).
 
 Definition targets (cur : list (id * expr)) : list id := flat_map (fun kv => free_syms (snd kv)) cur.
 
 (* guard: neither an alias nor the symbol it points to is assigned again while the alias is pending (true for
-   every single-assignment valid model, Proofs.inline_ok_on_valid; chains of aliases need no conjunct any more) *)
-Fixpoint inline_guard (l : list stm) (cur : list (id * expr)) : bool :=
+   every program in which no statement assigns a parameter / rv / column after make_declarative; chains of aliases
+   need no conjunct any more) *)
+Fixpoint inline_guard (dvs : list id) (l : list stm) (cur : list (id * expr)) : bool :=
   match l with
   | [] => true
   | st :: tl =>
-      match alias_of st with
-      | Some (s, y) => inline_guard tl (aset s (subs_map cur (Sym y)) cur)
-      | None => negb (interp_nonempty (sdefs st) (akeys cur ++ targets cur)) && inline_guard tl cur
+      match alias_of dvs st with
+      | Some (s, y) => inline_guard dvs tl (aset s (subs_map cur (Sym y)) cur)
+      | None => negb (interp_nonempty (sdefs st) (akeys cur ++ targets cur)) && inline_guard dvs tl cur
       end
   end.
-Definition g_inline_ok (l : list stm) : bool := inline_guard l [].
-
-(* no dependent variable is a pure alias that the inlining loop removes (hypothesis `~ In x (inlined l)` of
-   inline_preserves / cleanup_preserves for x = the dependent variable) *)
-Definition g_dv_not_alias (outs : list id) (l : list stm) : bool :=
-  forallb (fun y => negb (memp y (inlined l))) outs.
+Definition g_inline_ok (dvs : list id) (l : list stm) : bool := inline_guard dvs l [].
 
 (* ---- rename_symbols: statements.subs(d) with a symbol-to-symbol dict ------------------------------ *)
 Definition ren_map (d : list (id * id)) : list (id * expr) := map (fun kv => (fst kv, Sym (snd kv))) d.
@@ -334,25 +332,25 @@ Definition joint_dangling (fixed : list (id * Q)) (dists : list dist) : bool :=
 
 (* cleanup_model: declarative; inline; replace_non_random_rvs; replace_fixed_thetas (the statements only:
    cleanup_m below adds the checks Model.replace performs) *)
-Definition cleanup_stmts (fixed : list (id * Q)) (dists : list dist) (l : list stm) : list stm :=
-  replace_fixed (fixed_after fixed dists) (replace_non_random fixed dists (inline (declarative l))).
+Definition cleanup_stmts (dvs : list id) (fixed : list (id * Q)) (dists : list dist) (l : list stm) : list stm :=
+  replace_fixed (fixed_after fixed dists) (replace_non_random fixed dists (inline dvs (declarative l))).
 
 (* the part of cleanup_model after make_declarative, on the declarative statements [d].  (The test
    `s.expression.is_symbol()` looks at the expression AFTER symengine canonicalised the substituted
    expression, so the correspondence check feeds this stage with the implementation's own declarative
    statements.) *)
-Definition cleanup_from_decl (known : list id) (fixed : list (id * Q)) (dists : list dist) (d : list stm)
+Definition cleanup_from_decl (known dvs : list id) (fixed : list (id * Q)) (dists : list dist) (d : list stm)
   : res (list stm) :=
-  let i := inline d in
+  let i := inline dvs d in
   if canon_ok known i then
     if joint_dangling fixed dists then RInternal
     else ROk (replace_fixed (fixed_after fixed dists) (replace_non_random fixed dists i))
   else RValueError.
 
-Definition cleanup_m (known : list id) (fixed : list (id * Q)) (dists : list dist) (l : list stm)
+Definition cleanup_m (known dvs : list id) (fixed : list (id * Q)) (dists : list dist) (l : list stm)
   : res (list stm) :=
   let d := declarative l in
-  if canon_ok known d then cleanup_from_decl known fixed dists d else RValueError.
+  if canon_ok known d then cleanup_from_decl known dvs fixed dists d else RValueError.
 
 (* no statement assigns a parameter, random variable or data column (domain of the property) *)
 Definition g_no_shadowing (known : list id) (l : list stm) : bool :=
